@@ -144,6 +144,19 @@ def grid_view(ctx, su, sv, rational):
     if rational:
         ctx.check_eq_grid('rational.unweighted_view', t.ctrlpts, P)
         ctx.check_eq_vec('rational.weights_view', t.weights, W)
+    # control-point lookup by parameter addresses the same grid: with degree (1, 1) and uniform knots the block found at the
+    # knots (u_i, v_j) is rows i-1..i (resp. the last two at the domain end), columns likewise, of the 2-D view
+    s.knotvector_u = [ctx.lit(0)] + [ctx.lit(Fraction(i, su - 1)) for i in range(su)] + [ctx.lit(1)]
+    s.knotvector_v = [ctx.lit(0)] + [ctx.lit(Fraction(j, sv - 1)) for j in range(sv)] + [ctx.lit(1)]
+    ops = ctx.geomdl('operations')
+    for i in range(su - 1):
+        for j in range(sv - 1):
+            blk = ops.find_ctrlpts(s, ctx.lit(Fraction(2 * i + 1, 2 * (su - 1))), ctx.lit(Fraction(2 * j + 1, 2 * (sv - 1))))
+            ctx.check_true('find_ctrlpts[%d][%d].shape' % (i, j), len(blk) == 2 and all(len(r) == 2 for r in blk))
+            for a in range(2):
+                for b in range(2):
+                    ctx.check_eq_vec('find_ctrlpts[%d][%d].block[%d][%d]=grid[i+a][j+b]' % (i, j, a, b), blk[a][b],
+                                     Pw[spec.layout(i + a, j + b, 0, su, sv)])       # the grid view holds homogeneous points
 
 
 # ------------------------------------------------------------------------------------------------
